@@ -2,5 +2,5 @@
 # runs every claimed check's quick command and prints its verdict line
 cd "$(dirname "$0")/.."
 for p in $(python3 -c "import json;print(' '.join(c['property_id'] for c in json.load(open('MANIFEST.json'))['checks']))"); do
-  timeout 1500 ./check $p ${1:-quick} 2>&1 | grep -E "^(VIOLATION|C[0-9]+ )" | tail -2
+  timeout ${RUNALL_TIMEOUT:-1500} ./check $p ${1:-quick} 2>&1 | grep -E "^(VIOLATION|C[0-9]+ )" | tail -2
 done
